@@ -114,6 +114,19 @@ func Compare(pj *simdjson.ParsedJson, spec []SpecWord, sb []byte) error {
 				return fmt.Errorf("tape[%d]: number word %x, want %x (%s): %s", i+1, pj.Tape[i+1], want, spec[i+1].Lit, Dump(pj))
 			}
 			i++
+		case "N":
+			// a dead word: the reader continues at i + skip.  Demanded: the same words are dead, and the skip stays inside the
+			// run of dead words (it may be shorter than the specification's, which jumps to the end of the run at once)
+			if tag != 'N' {
+				return bad("tag")
+			}
+			run := 0
+			for i+run < len(spec) && spec[i+run].Tag == "N" {
+				run++
+			}
+			if pay < 1 || pay > uint64(run) {
+				return bad(fmt.Sprintf("NOP skip leaves the run of %d dead words", run))
+			}
 		default:
 			if len(s.Tag) != 1 || tag != s.Tag[0] {
 				return bad("tag")
